@@ -41,13 +41,14 @@ VARIABLES
   reps,    \* monitor: set of <<t, r, v>>  every (non-repeated) report
   reached, \* monitor: set of <<t, r>>     reports at which the trial reached a milestone
   latest,  \* monitor: [Trials -> last level reported in a way that counts (not a re-report after a restart)]
+  cmpl,    \* monitor: set of <<t, r>>: trial t ended on its own after its report at level r
   tie,     \* monitor: some decision so far was taken at an exact tie (metric = cutoff): either outcome was legal
   pobs,    \* searcher state: set of <<t, r>> with an observation   (program / bound from the log)
   ppend,   \* searcher state: set of <<t, r>> pending               (program / bound from the log)
   lur,     \* program: largest_update_resource per trial (0 = none)
   fresh    \* the searcher state variables are up to date with the other variables
 
-sdV  == <<reps, reached, latest, tie>>
+sdV  == <<reps, reached, latest, cmpl, tie>>
 ssV  == <<pobs, ppend, lur, fresh>>
 vars == <<cf, st, lastr, rung, br, ms, rf, cap, thr, nstart, flags, sdV, ssV>>
 
@@ -135,7 +136,7 @@ EvStart(t, b, mval) ==
   /\ br' = [br EXCEPT ![t] = b] /\ ms' = [ms EXCEPT ![t] = FirstMilestone(b)] /\ rf' = [rf EXCEPT ![t] = 0]
   /\ nstart' = nstart + 1
   /\ tie' = (tie \/ (IsPromotion /\ \E lv \in ScanLevels(SysOf(b)) : \E e \in Unpromoted(SysOf(b), lv) : EligVerdict(SysOf(b), lv, e) = "tie"))
-  /\ UNCHANGED <<cf, rung, cap, thr, reps, reached, latest>>
+  /\ UNCHANGED <<cf, rung, cap, thr, reps, reached, latest, cmpl>>
 
 \* suggest() resumed trial t from rung level `from`, to run until `to`; b = bracket sampled
 EvPromote(t, from, to, b, mval) ==
@@ -159,7 +160,7 @@ EvPromote(t, from, to, b, mval) ==
   /\ lastr' = [lastr EXCEPT ![t] = IF cf.ckpt THEN from ELSE 0]
   /\ br' = [br EXCEPT ![t] = b] /\ ms' = [ms EXCEPT ![t] = to] /\ rf' = [rf EXCEPT ![t] = from]
   /\ tie' = (tie \/ \E lv \in ScanLevels(s) : \E e \in Unpromoted(s, lv) : EligVerdict(s, lv, e) = "tie")
-  /\ UNCHANGED <<cf, cap, thr, nstart, reps, reached, latest>>
+  /\ UNCHANGED <<cf, cap, thr, nstart, reps, reached, latest, cmpl>>
 
 \* expected decision of a stopping-type report: set of allowed decisions
 StopAllowed(t, r, v, S1) ==     \* S1 = rung contents including the new entry (or {} if no rung is entered)
@@ -209,7 +210,7 @@ EvReport(t, r, v, c, d, capNow) ==
   /\ latest' = IF cf.sd = "none" \/ (IsPromotion /\ rf[t] > 0 /\ r <= rf[t]) THEN latest ELSE [latest EXCEPT ![t] = r]
   /\ tie' = (tie \/ (~IsPromotion /\ r < cf.maxt /\ r \in OwnLevels(br[t]) /\ ~InRung(t, s, r)
                       /\ RungVerdict(rung[<<s, r>>] \cup {[t |-> t, v |-> v, c |-> c, p |-> FALSE]}, r, v) = "tie"))
-  /\ UNCHANGED <<cf, br, ms, rf, nstart>>
+  /\ UNCHANGED <<cf, br, ms, rf, nstart, cmpl>>
 
 \* on_trial_error(t): the run crashed
 EvError(t) ==
@@ -221,7 +222,8 @@ EvError(t) ==
 EvComplete(t) ==
   /\ st[t] = "running" /\ lastr[t] >= 1
   /\ st' = [st EXCEPT ![t] = "stopped"]
-  /\ UNCHANGED <<cf, lastr, rung, br, ms, rf, cap, thr, nstart, flags, sdV>>
+  /\ cmpl' = IF cf.sd = "none" THEN cmpl ELSE cmpl \cup {<<t, lastr[t]>>}
+  /\ UNCHANGED <<cf, lastr, rung, br, ms, rf, cap, thr, nstart, flags, reps, reached, latest, tie>>
 
 \* rung sizes read back from the scheduler: sz = [<<s, lv>> -> Nat] as a sequence of <<s, lv, n>>
 EvRungSizes(sz) ==
@@ -257,7 +259,9 @@ ExpectedObs ==
   CASE cf.sd = "all"   -> {<<x[1], x[2]>> : x \in reps}
     [] cf.sd = "rungs" -> {<<x[1], x[2]>> : x \in {y \in reps : y[2] \in LevelSet \/ y[2] = cf.maxt}}
     [] OTHER           -> reached \cup {<<t, latest[t]>> : t \in {u \in Trials : latest[u] > 0}}
-ObsLevelsMatchPolicy == (fresh /\ cf.sd # "none") => pobs = ExpectedObs
+\* (the result a trial COMPLETES with may be added to the data set whatever the policy: on_trial_complete passes it on
+\*  when it lies beyond the last level the searcher was updated with)
+ObsLevelsMatchPolicy == (fresh /\ cf.sd # "none") => (ExpectedObs \subseteq pobs /\ pobs \subseteq ExpectedObs \cup cmpl)
 PendingOnlyLive      == (fresh /\ cf.sd # "none") => \A p \in ppend : st[p[1]] = "running"
 PendingNotObserved   == (fresh /\ cf.sd # "none") => ppend \cap pobs = {}
 ObsOnceAndTrue       == NoFlag("obs_duplicate") /\ NoFlag("obs_value") /\ NoFlag("pending_duplicate")
@@ -291,7 +295,7 @@ InitCommon(c) ==
   /\ cap = c.cap0
   /\ thr = [lv \in SetOfSeq(c.levels) |-> NoVal]
   /\ nstart = 0 /\ flags = {}
-  /\ reps = {} /\ reached = {} /\ latest = [t \in Trials |-> 0] /\ tie = FALSE
+  /\ reps = {} /\ reached = {} /\ latest = [t \in Trials |-> 0] /\ cmpl = {} /\ tie = FALSE
   /\ pobs = {} /\ ppend = {} /\ lur = [t \in Trials |-> 0] /\ fresh = TRUE
 
 \* Rung.quantile + the comparison of StoppingRungSystem._task_continues
@@ -381,6 +385,14 @@ A_Report(t, v, c) ==
             /\ lur' = IF upd0 THEN [lur EXCEPT ![t] = r] ELSE lur
   /\ fresh' = TRUE
 
+\* on_trial_complete: the last result is passed to the searcher if it lies beyond largest_update_resource (and one exists);
+\* cleanup_pending
+A_Complete(t) ==
+  /\ EvComplete(t)
+  /\ pobs' = IF cf.sd # "none" /\ lur[t] # 0 /\ lastr[t] > lur[t] THEN pobs \cup {<<t, lastr[t]>>} ELSE pobs
+  /\ ppend' = {p \in ppend : p[1] # t}
+  /\ UNCHANGED <<lur, fresh>>
+
 \* on_trial_error -> evaluation_failed -> cleanup_pending
 A_Error(t) == EvError(t) /\ ppend' = {p \in ppend : p[1] # t} /\ UNCHANGED <<pobs, lur, fresh>>
 
@@ -388,4 +400,5 @@ Next ==
   \/ \E b \in 0..(cf.nbr - 1) : A_Suggest(b)
   \/ \E t \in Trials, v \in cf.vals, c \in cf.costs : A_Report(t, v, c)
   \/ \E t \in Trials : cf.faults /\ A_Error(t)
+  \/ \E t \in Trials : cf.completes /\ A_Complete(t)
 =============================================================================
